@@ -365,7 +365,11 @@ CYC = {
 }
 
 
+EMPTYNS_CFG = 'default = "en"\nlocales = ["en", "fr"]\nnamespaces = []\n'
+
+
 def main():
+    project("emptyns", EMPTYNS_CFG, "locales", {"en": {"unused": "never read"}, "fr": {"unused": "jamais lu"}})
     project("manyloc", MANY_CFG, "locales", {l: many_file(l) for l in MANY_LOCALES})
     project("cyclic", CYC_CFG, "locales", CYC)
     project("rich", RICH_CFG, "locales", {"en": RICH_EN, "fr": RICH_FR, "fr-CA": RICH_FRCA, "ru": RICH_RU, "ar": RICH_AR})
